@@ -55,6 +55,19 @@ def schema_units(run, with_big=True):
         shapes.mk_struct("DupId", [("a", 0, ("u", 8)), ("b", 1, ("u", 16)), ("c", 1, ("u", 32))]),
         shapes.mk_struct("DupId2", [("x", 4, ("i", 5)), ("y", 4, ("str",)), ("z", 2, ("u", 3)), ("w", 4, ("opt", ("u", 7)))]),
         shapes.mk_struct("DupIn", [("n", 0, ("struct", "DupId")), ("m", 0, ("arr", ("struct", "DupId2"), 2))]),
+        # a binding RENAMED to the name of another struct that is declared after it: struct names are looked up
+        # among structs
+        shapes.mk_struct("PedalRaw", [("a", 0, ("u", 16)), ("b", 1, ("u", 8))]),
+        {"kind": "impl", "protocol": "can", "type": "PedalRaw", "name": "Pedal", "items": [("field", "id", 1)]},
+        shapes.mk_struct("Pedal", [("x", 0, ("u", 8)), ("y", 1, ("i", 8))]),
+        shapes.mk_struct("UsesPedal", [("p", 0, ("struct", "Pedal")), ("q", 1, ("u", 3)), ("l", 2, ("dyn", ("struct", "Pedal")))]),
+        # range() annotations say nothing about the wire: any value of the TYPE has its canonical encoding
+        {"kind": "struct", "name": "Ranged", "fields": [
+            {"name": "a", "id": 0, "type": ("u", 8), "range": (0, 200)},
+            {"name": "o", "id": 1, "type": ("opt", ("u", 8)), "range": (0, 10)},
+            {"name": "l", "id": 2, "type": ("arr", ("i", 8), 2), "range": (0, 1)},
+            {"name": "f", "id": 3, "type": ("f32",), "range": (-1.5, 1.5), "unit": "V"},
+            {"name": "s", "id": 4, "type": ("str",), "unit": "x"}]},
         # fixed arrays longer than 256 elements (beyond CPython's small-int cache)
         shapes.mk_struct("Arr257", [("a", 0, ("u", 3)), ("d", 1, ("arr", ("u", 1), 257)), ("z", 2, ("i", 4))]),
         shapes.mk_struct("Arr300", [("d", 0, ("arr", ("i", 5), 300)), ("e", 1, ("arr", ("arr", ("u", 2), 260), 2))]),
